@@ -25,7 +25,7 @@ func init() {
 		Rule: "one run = 3-5 replicas of the real event.State (volatile, durable in memory, durable on file by tape) with per-replica clocks (skew, ties, backward jumps); tape-generated Add/Del of subscription, ban and connection events at any replica; payloads = single-operation states, deltas returned by Merge and full snapshots, each delivered directly or through Encode->DecodeState, with reorder, duplication, loss and partitions; after EVERY merge each replica's entries (add time, remove time, activity via Get/Has/Range/State.Has) are compared with the point-wise maximum over the operations it has transitively received; two final all-to-all rounds must make all replicas equal; non-trivial = >= 1 merge changed a replica; distinct = distinct canonical logs",
 		Real:  []string{"event.State (Add, Del, Has, Merge, Encode, DecodeState)", "crdt.Volatile", "crdt.Durable (buntdb, freecache)", "event key/value codecs"},
 		Stub:  []string{"payload network (in-memory bag with reorder/dup/loss/partition)", "replica clocks (crdt.Now seam)"},
-		Assumptions: []string{"run spans far less than the 6 h tombstone expiry of the durable backend", "payload bytes (event values) are not compared, only times and activity"},
+		Assumptions: []string{"the bubble clock of a run spans far less than the 6 h tombstone expiry of the durable backend (the replicas' own stamps span up to weeks)", "payload bytes (event values) are not compared, only times and activity"},
 	})
 	kernel.Register(&kernel.World{
 		Property: "C13", Bubble: true, Run: func(c *kernel.Ctx) { runC13(c) }, RunsPerProc: 60,
@@ -179,6 +179,14 @@ func (w *crWorld) tick(r *crReplica) {
 		r.clock -= int64(w.c.Tape.Range(1, 3000))
 		w.c.Fault("clock-backward-jump")
 	default:
+		if w.c.Tape.Chance(1, 4) {
+			// hours to days pass on this replica: entries and tombstones of very different ages live side by
+			// side (the stamps are the replicas' own clocks; the durable backend ages its tombstones by the
+			// bubble's clock, which does not move here)
+			r.clock += int64(w.c.Tape.Range(5, 200)) * 3600 * 1_000_000_000
+			w.c.Fault("clock-jump-hours")
+			break
+		}
 		r.clock += 1_000_000
 	}
 }
